@@ -35,15 +35,15 @@ def norm(c):
 
 
 def cases(ctx):
-    for i in range(ctx.pick(400, 8000)):
+    for i in range(ctx.pick(500, 24000)):
         yield "history", {"seed": ctx.subseed("h", i), "max_len": ctx.pick(40, 200)}
-    for i in range(ctx.pick(150, 2000)):
+    for i in range(ctx.pick(400, 40000)):
         yield "truncate", {"seed": ctx.subseed("t", i)}
     yield "exhaustive_small", {"length": 3}
     if not ctx.quick:
         for f in range(9):
             yield "exhaustive_small", {"length": 4, "first": f}
-    for i in range(ctx.pick(16, 200)):
+    for i in range(ctx.pick(40, 2000)):
         yield "insitu", {"seed": ctx.subseed("is", i), "algo": ["epsmoea", "omopso", "smpso", "psoga"][i % 4]}
 
 
